@@ -403,11 +403,11 @@ impl Variant {
             match round_left {
                 Self::VInteger(i_left) => match round_right {
                     Self::VInteger(i_right) => Ok(Self::VInteger(i_left % i_right)),
-                    Self::VLong(_) => Err(VariantError::Overflow),
-                    _ => Err(VariantError::TypeMismatch),
+                    // a number that is still a long, single or double after rounding
+                    // does not fit (strings have already been refused by `round`)
+                    _ => Err(VariantError::Overflow),
                 },
-                Self::VLong(_) => Err(VariantError::Overflow),
-                _ => Err(VariantError::TypeMismatch),
+                _ => Err(VariantError::Overflow),
             }
         }
     }
